@@ -448,7 +448,19 @@ impl<const K: usize> Complement for Kmer<codec::dna::Dna, K, usize> {}
 
 impl<A: Codec, const K: usize> ReverseMut for Kmer<A, K, usize> {
     fn rev(&mut self) {
-        self.rev_blocks_2();
+        if A::BITS == 2 {
+            self.rev_blocks_2();
+        } else {
+            // symbols wider or narrower than 2 bits: move them one at a time
+            let mask: usize = (1 << A::BITS) - 1;
+            let mut src = self.bs;
+            let mut dst: usize = 0;
+            for _ in 0..K {
+                dst = (dst << A::BITS) | (src & mask);
+                src >>= A::BITS;
+            }
+            self.bs = dst;
+        }
     }
 }
 
